@@ -36,6 +36,14 @@ def run(ck):
             if ln.startswith('{"e":"G"') and n < 4:
                 ck.sample(ln.strip())
                 n += 1
+    # the same views inside the composed machine: guest programs that relocate the MMIO window, switch page mode and pages and
+    # store/load around the boundaries, while the host reads and writes through every accessor (plain, bypass, A32, program,
+    # MMIO) between slices; every cell written and every value returned must be System.tla's
+    from props import sys_common
+    ck.build('sys_rec')
+    sfiles = sys_common.record(ck, ck.pick(4, 12), ck.pick(6, 12), tag='mempage', mode='page', seedoff=3500)
+    sfiles += sys_common.record(ck, ck.pick(2, 8), ck.pick(4, 10), tag='memio', mode='io', seedoff=3700)
+    sys_common.validate(ck, sfiles)
     ck.assumptions += ['Memory.tla is a faithful reading of the C11 statement (reviewed by hand)',
                        'TLC, the Json/IOUtils community modules and g++ are trusted',
                        'the real geometry (2^18 program words, 2^17 data words, all mmio_base values) is covered '
@@ -59,7 +67,9 @@ def record(ck):
 
 def replay(ck, path):
     path = path.split('#')[0]
-    if path.endswith('.ndjson'):
+    if os.path.basename(path).startswith(('mempage_', 'memio_')):
+        ck.validate_traces('SysTrace', 'Trace_Sys.cfg', [path], jvm=['-Xss64m'])
+    elif path.endswith('.ndjson'):
         ck.validate_traces('MemoryTrace', 'Trace_Memory.cfg', [path])
     else:
         print(open(path).read()[-4000:])
